@@ -142,7 +142,7 @@ def oracle_C03(case, res, rnd):
         return "accepted program was rejected or crashed: %s %s" % (res["kind"], res.get("msg", ""))
     m = case.meta
     worlds = []
-    for va in range(0, 9):
+    for va in range(0, 13):
         for vb in (1, 2):
             for fa in (False, True):
                 worlds.append(sem.TableWorld({f: fa for f in FLAGS}, {t: fa for t in TRAINERS}, {"VAR_A": va, "VAR_B": vb, "VAR_RESULT": va}))
